@@ -322,7 +322,8 @@ def _interval_cases(res, stmts, shard=60):
             # locate the first failing lemma of the shard from the error position
             import re
             m = re.search(r'line (\d+)', out)
-            txt = (CM_BUILD / f"interval_{k}.v").read_text().splitlines() if m else []
+            from common import run_dir
+            txt = (run_dir(PROP) / f"interval_{k}.v").read_text().splitlines() if m else []
             j = None
             if m:
                 for ln in range(int(m.group(1)) - 1, -1, -1):
@@ -335,8 +336,6 @@ def _interval_cases(res, stmts, shard=60):
                       (f"Interval could not certify: {shards[k][j][:700]}\n" if j is not None else "") + out[-800:])
 
 
-from common import BUILD as _B
-CM_BUILD = _B / PROP
 
 
 def replay(path):
